@@ -9,6 +9,7 @@ import (
 	"crypto/x509"
 	"io"
 	"net"
+	"runtime"
 
 	"github.com/honeytrap/honeytrap/listener"
 	tls "github.com/honeytrap/honeytrap/services/ja3/crypto/tls"
@@ -74,3 +75,29 @@ func zzH_C01_httpscache() {
 }
 
 func zzAllowAlways(l *rate.Limiter) bool { return true }
+
+// C01/memcached-storage: a storage command announcing any byte count of 1..D decimal
+// digits, followed by one byte of value and the end of the stream. Handling it must not
+// commit memory proportional to the announced count.
+func zzH_C01_memcachedset() {
+	d := zzLen(1, zzParam("D", 9))
+	digits := zzBytes(d)
+	for i := 0; i < d; i++ {
+		zzAssume(zzAnd(digits[i] >= '0', digits[i] <= '9'))
+	}
+	verb := []string{"set", "add", "append", "cas"}[zzLen(0, 3)]
+	stream := append([]byte(verb+" k 0 0 "), digits...)
+	stream = append(stream, "\r\nx"...)
+	s := Memcached().(*memcachedService)
+	s.SetChannel(&zzCRec{})
+	var m0, m1 runtime.MemStats
+	if !zzSymbolic() {
+		runtime.ReadMemStats(&m0)
+	}
+	zzDidPanic(func() { s.Handle(context.Background(), &zzCutConn{data: stream, cut: len(stream)}) })
+	if !zzSymbolic() {
+		runtime.ReadMemStats(&m1)
+		zzAssert(m1.TotalAlloc-m0.TotalAlloc < 4<<20, "allocation whose length is controlled by the input can exceed 1048576 elements")
+	}
+	zzAssert(true, "reached")
+}
